@@ -72,6 +72,11 @@ fn main() {
                 None => 2,
             }
         }
+        Some("c03-debug") => {
+            let doc: serde_json::Value = serde_json::from_str(&std::fs::read_to_string(&args[2]).unwrap()).unwrap();
+            props::c03::debug_case(&doc["case"].to_string());
+            0
+        }
         Some("maint-debug") => {
             let doc: serde_json::Value = serde_json::from_str(&std::fs::read_to_string(&args[2]).unwrap()).unwrap();
             props::maint::debug_timeline(&doc["case"].to_string(), args[3].parse().unwrap(), args[4].parse().unwrap(), args[5].parse().unwrap());
